@@ -424,6 +424,24 @@ def same_name_probe(rep, pid="C06"):
                         rep.violations.append({"cls": None, "family": fam, "source": src,
                                                "what": f"after load the objects of the class bound by `{imp}` show {out.strip()!r}, before the save {want!r} "
                                                        f"(an engine for another story with a class of the same name was loaded earlier in this process: order {order}, style {style})"})
+        # both modules imported by ONE story: each object comes back as an object of its own class
+        src = ("import verif_story_one\nimport verif_story_two\nfrom verif_story_two import Token as Tk2\n:: Start\n~ a = verif_story_one.Token(3)\n~ b = verif_story_two.Token(3)\n~ c = Tk2(1)\nhi\n+ [go] -> Mid\n\n"
+               ":: Mid\nmid\n+ [go] -> Next\n\n:: Next\n{a.show()} {b.show()} {c.show()}\n")
+        n += 1
+        try:
+            with quiet():
+                story = corr_play.compile_source(src)
+                e = BardEngine(copy.deepcopy(story))
+                e.choose(0)
+                doc = json.loads(json.dumps(e.save_state()))
+                e2 = BardEngine(copy.deepcopy(story))
+                e2.load_state(doc)
+                out = e2.choose(0).content.strip()
+            if out != "one:3 two:6 two:2":
+                rep.violations.append({"cls": None, "family": fam, "source": src,
+                                       "what": f"a story that imports two modules with a class of the same name shows {out!r} after a load; before the save its objects show 'one:3 two:6 two:2'"})
+        except Exception as ex:  # noqa
+            rep.violations.append({"cls": None, "family": fam, "what": f"two same-named classes in one story: {type(ex).__name__}: {str(ex)[:160]}", "source": src})
     finally:
         for mn in mods:
             sys.modules.pop(mn, None)
